@@ -54,7 +54,7 @@ class HalfOpenRandom(stubs.SymRandom):
     def uniform(self, a, b):
         u = stubs.SymRandom.uniform(self, a, b)
         if isinstance(a, (int, float)) and a == 0:
-            self.ex.axiom(stubs._le(u, b) if False else (L(u) < L(b)))
+            self.ex.axiom(z3.Implies(L(b) > 0, L(u) < L(b)))
         return u
 
 
@@ -76,6 +76,7 @@ def _same_signature_init(real_cls, body):
 
 
 _STUB_CACHE = {}
+ALLOW_INF = [False]
 
 
 def cached(maker):
@@ -116,12 +117,24 @@ def make_stub_potential(real_cls):
     derivative/displacement return fresh symbols constrained by the documented contract only."""
     from jellyfysh.potential import InvertiblePotential
 
+    # argument counts as the real class introspects them (from the real method signatures)
+    probe = object.__new__(real_cls)
+    probe._number_separation_arguments = probe._number_charge_arguments = probe._potential_change_required = None
+    try:
+        n_sep, n_charge = probe.number_separation_arguments, probe.number_charge_arguments
+    except Exception:  # noqa
+        n_sep, n_charge = 1, 0
+    try:
+        pcr = probe.potential_change_required if issubclass(real_cls, InvertiblePotential) else None
+    except Exception:  # noqa
+        pcr = None
+
     def body(self, kwargs):
         self._stub_kwargs = kwargs
         self._prefactor = kwargs.get("prefactor", 1.0)
-        self._number_separation_arguments = None
-        self._number_charge_arguments = None
-        self._potential_change_required = None
+        self._number_separation_arguments = n_sep
+        self._number_charge_arguments = n_charge
+        self._potential_change_required = pcr
         self._estimator = kwargs.get("estimator")
         self._initialized = False
 
@@ -146,8 +159,10 @@ def make_stub_potential(real_cls):
             r = ex.fresh_real("cellrate")
             ex.axiom(r.t >= 0)
             self._bounding_event_rate = r
-        # a displacement is a non-negative time or +inf (never accumulating the budget)
-        if ex.choose(2) == 1:
+        # a displacement is a non-negative time or +inf (never accumulating the budget); the +inf alternative doubles
+        # the paths per pending event and is explored only when ALLOW_INF is set (a never-firing event is otherwise
+        # represented by a finite time later than the events that fire within the bound)
+        if ALLOW_INF[0] and ex.choose(2) == 1:
             return math.inf
         d = ex.fresh_real("disp")
         ex.axiom(d.t >= 0)
@@ -311,6 +326,55 @@ class SymCreators(object):
         return undo
 
 
+def _is_inf_time(t):
+    return isinstance(t.quotient, float) and math.isinf(t.quotient)
+
+
+def value_comparisons():
+    """Time comparisons as one comparison of the exact values q + r (equivalent for normalised times: C14) instead
+    of the lexicographic quotient-then-remainder cascade, which forks three ways per comparison."""
+    import operator
+    saved = {n: getattr(Time, n) for n in ("__lt__", "__le__", "__gt__", "__ge__", "__eq__")}
+
+    def mk(op):
+        def cmp(a, b):
+            ia, ib = _is_inf_time(a), _is_inf_time(b)
+            if ia or ib:
+                if ia and ib:
+                    return op((a.quotient, a.remainder), (b.quotient, b.remainder)) if op is not operator.eq \
+                        else (a.quotient == b.quotient and a.remainder == b.remainder)
+                return op(a.quotient if ia else 0.0, b.quotient if ib else 0.0)
+            return op(symx.SymReal(jf.time_value(a)), symx.SymReal(jf.time_value(b)))
+        return cmp
+    for n, op in (("__lt__", operator.lt), ("__le__", operator.le), ("__gt__", operator.gt), ("__ge__", operator.ge),
+                  ("__eq__", operator.eq)):
+        setattr(Time, n, mk(op))
+
+    def undo():
+        for n, f in saved.items():
+            setattr(Time, n, f)
+    return undo
+
+
+def exact_weights():
+    """Node weights 1/n as exact rationals (ideal-real model): the float 1/3 is not a third, which would make the
+    weighted barycentre differ from the composite position by 2^-54 relative -- a rounding effect."""
+    import fractions
+    import jellyfysh.base.node as node_mod
+    orig = node_mod.Node._get_weight_not_set
+
+    def _get_weight_not_set(self):
+        self._weight = (symx.SymReal(symx.realval(fractions.Fraction(1, len(self.parent.children))))
+                        if self.parent is not None else 1)
+        self._get_weight = self._get_weight_set
+        return self._weight
+    node_mod.Node._get_weight_not_set = _get_weight_not_set
+
+    def undo():
+        node_mod.Node._get_weight_not_set = orig
+    return undo
+
+
 def silence_warnings():
     """bounding_potential_warning only prints (it compares the two rates first, which would fork every path)."""
     undos = []
@@ -402,6 +466,8 @@ def explore_config(task):
             _, undo = jf.patch_math_random(pmods, ex, rnd=rnd)
             undos.append(undo)
             undos.append(silence_warnings())
+            undos.append(value_comparisons())
+            undos.append(exact_weights())
             factory.build_from_config(cfg, to_camel_case(cfg.get("Run", "setting")), "jellyfysh.setting")
             undos.append(SymCreators.install(ex))
             mediator = factory.build_from_config(cfg, to_camel_case(cfg.get("Run", "mediator")), "jellyfysh.mediator")
@@ -522,10 +588,26 @@ class Monitor(object):
             self._wrap_handler(h)
 
         def succ():
-            h = orig_succ()
-            mon.current = h
-            mon.current_time = [e.time for e in sched._times if e.event_handler is h][0]
-            return h
+            # argmin oracle instead of ListScheduler's chain of pairwise comparisons (2^(n-1) paths for n pending
+            # events): the explorer picks the winner i, the path assumes t_i < t_j (j < i) and t_i <= t_j (j > i) --
+            # exactly the element min() returns; the real monotonicity guard of the scheduler is kept
+            from jellyfysh.base.exceptions import SchedulerError
+            if not sched._times:
+                raise SchedulerError("The succeeding event was requested but the scheduler does not contain any events.")
+            finite = [e for e in sched._times if not _is_inf_time(e.time)]
+            cands = finite or list(sched._times)
+            i = mon.ex.choose(len(cands))
+            e = cands[i]
+            if finite:
+                vi = jf.time_value(e.time)
+                for j, o in enumerate(cands):
+                    if j != i:
+                        vo = jf.time_value(o.time)
+                        mon.ex.assume(vi < vo if j < i else vi <= vo)
+            assert sched._event_time_increasing(e.time, e.event_handler.__class__.__name__)
+            mon.current = e.event_handler
+            mon.current_time = e.time
+            return e.event_handler
         sched.get_succeeding_event = succ
 
         def insert(out_state, _top=top):
@@ -663,11 +745,13 @@ class Monitor(object):
                 if G[r][1] is None:
                     self.ob("C12", "composite-velocity-is-weighted-sum", z3.BoolVal(False), root=str(r))
                 else:
-                    want = [sum(((symx.realval(G[j][4]) * G[j][1][d]) for j in kids if G[j][1] is not None),
+                    want = [sum(((L(G[j][4]) * G[j][1][d]) for j in kids if G[j][1] is not None),
                                 z3.RealVal(0)) for d in range(dim)]
                     self.ob("C12", "composite-velocity-is-weighted-sum",
                             z3.And(*[a == b for a, b in zip(G[r][1], want)]), root=str(r))
-            # barycentre of nearest images at the event time
+            # barycentre of nearest images at the event time.  Assumption (stated): molecules stay compact -- every
+            # member within a quarter box length of the composite position -- which the bond potentials enforce in
+            # real runs and the unconstrained stub potentials do not
             xr = position_at(G[r], t, Ls)
             conds = []
             for d in range(dim):
@@ -677,7 +761,8 @@ class Monitor(object):
                     # nearest image of the leaf relative to the root: xj + k L with |xj + kL - xr| <= L/2
                     k = z3.Int(self.ex.fresh_name("img"))
                     self.ex.axiom(z3.And(xj + z3.ToReal(k) * Ls - xr[d] > -Ls / 2, xj + z3.ToReal(k) * Ls - xr[d] <= Ls / 2))
-                    acc = acc + symx.realval(G[j][4]) * (xj + z3.ToReal(k) * Ls)
+                    self.ex.assume(z3.And(xj + z3.ToReal(k) * Ls - xr[d] > -Ls / 4, xj + z3.ToReal(k) * Ls - xr[d] < Ls / 4))
+                    acc = acc + L(G[j][4]) * (xj + z3.ToReal(k) * Ls)
                 conds.append(acc == xr[d])
             self.ob("C12", "composite-position-is-barycentre-of-nearest-images", z3.And(*conds), root=str(r))
         if self.commits >= self.K:
